@@ -315,3 +315,49 @@ impl Drop for ZeroBuf {
     }
 }
 
+
+/// A polynomial with coefficients in [lo, hi] that drives output slot 0 of the crate's forward NTT (real
+/// hook, whatever its internal representation) as far as it will go in direction `sign`.
+/// Slot 0 is input 0 plus one Montgomery product per layer, and the product of layer `len` depends only on
+/// the inputs whose lowest set index bit is `len` (Algorithm 41's butterfly structure): the eight index
+/// sets are disjoint, so each is optimised on its own by coordinate ascent (every value of the range, or
+/// a seeded stride over it, for one coordinate at a time, two passes), all other inputs held at zero.
+/// Returns the polynomial and the slot-0 value of the combination.
+pub fn ntt_slot0_maximiser(seed: u64, lo: i64, hi: i64, sign: i64) -> (refimpl::Poly, i64) {
+    use fips204::verif_hooks as hk;
+    let eval = |z: &[i32; 256]| -> i64 { guarded(|| i64::from(hk::ntt::<1>(&[*z])[0][0])).unwrap_or(0) };
+    let mut g = crate::util::Prng::derive(seed, "ntt-slot0-max", (sign & 1) as u64);
+    let span = hi - lo + 1;
+    let stride = (span / 1024).max(1);
+    let mut out = [0i32; 256];
+    out[0] = if sign > 0 { hi as i32 } else { lo as i32 };
+    for len in [128usize, 64, 32, 16, 8, 4, 2, 1] {
+        let idx: Vec<usize> = (1usize..256).filter(|&j| (j & j.wrapping_neg()) == len).collect();
+        let mut z = [0i32; 256];
+        let mut best = sign * eval(&z);
+        // few coordinates suffice: the product is a sawtooth in each of them; use up to 6 per layer
+        let use_idx: Vec<usize> = idx.iter().copied().take(6).collect();
+        for _pass in 0..2 {
+            for &j in &use_idx {
+                let keep = z[j];
+                let mut bv = keep;
+                let mut v = lo + g.below(stride as u64) as i64;
+                while v <= hi {
+                    z[j] = v as i32;
+                    let val = sign * eval(&z);
+                    if val > best {
+                        best = val;
+                        bv = v as i32;
+                    }
+                    v += stride;
+                }
+                z[j] = bv;
+            }
+        }
+        for &j in &use_idx {
+            out[j] = z[j];
+        }
+    }
+    let total = eval(&out);
+    (crate::sets::to_i64(&out), total)
+}
